@@ -864,6 +864,8 @@ def make_reuse(prog):
             ns, nn = ex.fresh_int('new_s', -1000, 4000000000), ex.fresh_int('new_n', 0, NANOS - 1)
             bsize = ex.fresh_int('basis_size', 1, 1 << 12)
             nsize = ex.fresh_int('new_size', 1, 1 << 12)
+            # permission bits may change without the content changing (chmod only): the new version must record the new ones
+            bmode, nmode = ex.fresh_int('basis_mode', 0, 0o7777), ex.fresh_int('new_mode', 0, 0o7777)
             changed = ex.branch(ex.fresh_bool('content_changed'), 'content changed?')
             if changed:
                 # the property's premise: a content change comes with a new mtime or a new size
@@ -874,12 +876,12 @@ def make_reuse(prog):
             A.put_head(ex, st, 0)
             hsh = A.put_block(ex, st, Data([(1, 0, bsize)]))
             ents = [A.mk_entry(ex, '/', 'Dir', 5, mode=0o755),
-                    A.mk_entry(ex, '/a', 'File', bs, addrs=[A.mk_addr(ex, hsh, 0, bsize)], nanos=bn, mode=0o644, owner=A.mk_owner(ex, 'u', None))]
+                    A.mk_entry(ex, '/a', 'File', bs, addrs=[A.mk_addr(ex, hsh, 0, bsize)], nanos=bn, mode=bmode, owner=A.mk_owner(ex, 'u', None))]
             A.put_hunk(ex, st, 0, 0, ents)
             A.put_tail(ex, st, 0, 1)
             st.mode = 'run'
             tree = SourceTreeV([SrcFile('/', 'Dir', mtime=TimeV(5, 0), mode=0o755),
-                                SrcFile('/a', 'File', cls=2 if changed else 1, size=nsize, mtime=TimeV(ns, nn), mode=0o644, user='u')])
+                                SrcFile('/a', 'File', cls=2 if changed else 1, size=nsize, mtime=TimeV(ns, nn), mode=nmode, user='u')])
             r = run_backup(ex, ar, tree, backup_options(ex, H_, B_, C_, True))
             problems = []
             if r[0] != 'ok':
